@@ -20,7 +20,19 @@ def main():
     mdir, prop = sys.argv[1], sys.argv[2]
     extra = sys.argv[3:]
     where = open(os.path.join(mdir, "WHERE.txt")).read()
-    sub = "time" if re.search(r"\btime/", where) or "time_test" in where else ("null" if re.search(r"\bnull/", where) else ".")
+    # the demo's own package clause says where it belongs; WHERE.txt is the fallback
+    demo_src = open(os.path.join(mdir, "demo_test.go")).read()
+    pm = re.search(r"^package\s+(\w+)", demo_src, re.M)
+    pkg = pm.group(1) if pm else ""
+    if pkg in ("time_test", "time", "avrotime_test"):
+        sub = "time"
+    elif pkg in ("null_test", "null"):
+        sub = "null"
+    elif pkg in ("avro_test", "avro"):
+        sub = "."
+    else:
+        sub = "time" if re.search(r"\btime/", where) or "time_test" in where else ("null" if re.search(r"\bnull/", where) else ".")
+    race = "-race " if "-race" in where else ""
     m = re.search(r"-run\s+'?\"?([A-Za-z0-9_|^$()]+)", where)
     runpat = m.group(1) if m else "."
     res = {"mutation": mdir, "property": prop, "demo_dir": sub, "demo_run": runpat}
@@ -33,13 +45,13 @@ def main():
     res["suite_passes_with_change"] = rc == 0
     demo_dst = os.path.join(WT, sub, "zz_seed_demo_test.go")
     shutil.copyfile(os.path.join(mdir, "demo_test.go"), demo_dst)
-    rc, out = sh("go test -count=1 -run '%s' ./%s" % (runpat, sub), timeout=600)
+    rc, out = sh("go test %s-count=1 -run '%s' ./%s" % (race, runpat, sub), timeout=900)
     res["demo_fails_with_change"] = rc != 0
     res["demo_output_with_change"] = out[-600:]
     os.remove(demo_dst)
     clean()
     shutil.copyfile(os.path.join(mdir, "demo_test.go"), demo_dst)
-    rc, out = sh("go test -count=1 -run '%s' ./%s" % (runpat, sub), timeout=600)
+    rc, out = sh("go test %s-count=1 -run '%s' ./%s" % (race, runpat, sub), timeout=900)
     res["demo_passes_without_change"] = rc == 0
     os.remove(demo_dst)
     clean()
